@@ -6,7 +6,7 @@
    freedom is refuted (the tool neither renames nor rejects), constants/derives/type checking are covered by the
    rustc stage of checks/C09.py only. *)
 From A1 Require Front.IntTy.
-From A1 Require Import Base.Res Gen.Keywords Front.Codegen Front.CodegenProofs Front.Attr Front.Descr Front.EmitProofs.
+From A1 Require Import Base.Res Gen.Keywords Front.Codegen Front.CodegenProofs Front.Attr Front.Descr Front.EmitProofs Front.IdemProofs.
 From Coq Require Import String.
 Local Open Scope N_scope.
 
@@ -142,6 +142,34 @@ Proof.
   - unfold IntTy.fits. cbn. intros [H _]. apply H. reflexivity.
 Qed.
 
+(* ================================================================== mangling twice
+
+   rust_variant_name (= rust_struct_or_enum_name) is NOT idempotent: a name that has its Rust spelling and is mangled again
+   somewhere on the macro path (a DEFAULT literal Plan::AB, complex(RouteTA, ..), extensible_after(AB)) becomes another
+   name (Plan::Ab).  The crate does not do that today (checks/C08.py and C09.py carry the family "a-b, x-y-z, plan-b-c,
+   Route-T-A" in every such position); the fixed points are characterised exactly: [variant_stable s] = no separator,
+   the first character is no lower-case letter, and no upper-case letter follows an upper-case letter unless a
+   lower-case letter comes next.  (rust_field_name, rust_constant_name, rust_module_name and the generator's own functions
+   showed no such name under op 3410; that is differential evidence only.) *)
+Theorem C09_variant_mangling_not_idempotent :
+  (exists s, asn_identifier s = true /\ rust_variant_name (rust_variant_name s) <> rust_variant_name s) /\
+  (exists s, asn_typereference s = true /\ rust_struct_or_enum_name (rust_struct_or_enum_name s) <> rust_struct_or_enum_name s) /\
+  rust_variant_name (codes "a-b") = codes "AB" /\ rust_variant_name (codes "AB") = codes "Ab" /\
+  rust_struct_or_enum_name (codes "Route-T-A") = codes "RouteTA" /\ rust_struct_or_enum_name (codes "RouteTA") = codes "RouteTa".
+Proof.
+  split; [|split; [|repeat split; vm_compute; reflexivity]].
+  - exists (codes "a-b"). split; [reflexivity|]. vm_compute. intros H. discriminate H.
+  - exists (codes "Route-T-A"). split; [reflexivity|]. vm_compute. intros H. discriminate H.
+Qed.
+
+Theorem C09_variant_mangling_fixed_points : forall s, rust_variant_name s = s <-> variant_stable s = true.
+Proof. exact variant_stable_iff. Qed.
+
+(* so: mangling a second time is harmless exactly for the names whose first mangling is stable *)
+Theorem C09_variant_mangling_idempotent_iff : forall s,
+  rust_variant_name (rust_variant_name s) = rust_variant_name s <-> variant_stable (rust_variant_name s) = true.
+Proof. intros s. apply variant_stable_iff. Qed.
+
 Example C09_nonvacuous_no_collision :
   let fields := [codes "type"; codes "my-field"; codes "typeX"] in
   Forall (fun s => asn_identifier s = true) fields /\ distinct_after_mangling rust_field_name fields /\
@@ -167,6 +195,9 @@ Qed.
 
 Print Assumptions C09_field_idents_legal.
 Print Assumptions C09_no_collision.
+Print Assumptions C09_variant_mangling_not_idempotent.
+Print Assumptions C09_variant_mangling_fixed_points.
+Print Assumptions C09_variant_mangling_idempotent_iff.
 Print Assumptions C09_field_name_no_trailing_underscore.
 Print Assumptions C09_consts_typed_partial.
 Print Assumptions C09_const_declared_type.
